@@ -1,6 +1,6 @@
 (* C13 property theorems.  Nothing but statements, each closed by `exact <lemma>.`, with
    Print Assumptions beneath.  Definitions: C13/Model.v (tables: C13/Gen.v, regenerated). *)
-From Wz Require Import lib.Bytes lib.Utf8 C13.Gen C13.Model C13.Proofs C13.Attrs.
+From Wz Require Import lib.Bytes lib.Utf8 C13.Gen C13.Model C13.Proofs C13.Attrs C13.Jar.
 Open Scope N_scope.
 
 (* every byte outside the cookie-octet set is escaped (SP is kept literal inside the quotes) *)
@@ -66,3 +66,11 @@ Theorem C13_attributes_exact : forall k v a,
     split_semi hdr [] = pair :: attr_pieces a.
 Proof. exact attributes_exact. Qed.
 Print Assumptions C13_attributes_exact.
+
+(* the test client's jar: what the client sends back for a Set-Cookie header written by dump_cookie
+   (any attributes) is read by the application as the value that was set *)
+Theorem C13_client_jar_roundtrip : forall k v a,
+  token k = true -> valid_text v = true ->
+  exists hdr, dump_cookie k v a = Some hdr /\ parse_cookie_environ (jar_request_header hdr) = EOk [(k, v)].
+Proof. exact client_jar_roundtrip. Qed.
+Print Assumptions C13_client_jar_roundtrip.
